@@ -294,6 +294,38 @@ Definition sysflag_key (k : list Z) : option string :=
   else if beq k (bs "\Seen") then Some "seen"%string
   else None.
 
+(* alternative spellings (choice c_opt 59): BCC/CC/FROM/SUBJECT/TO x for HEADER name x; UNANSWERED ... UNSEEN,
+   OLD, UNKEYWORD f for NOT of a flag key; NEW for (RECENT UNSEEN) *)
+Definition hdr_key (h : list Z) : option string :=
+  if beq h (bs "bcc") then Some "bcc"%string
+  else if beq h (bs "cc") then Some "cc"%string
+  else if beq h (bs "from") then Some "from"%string
+  else if beq h (bs "subject") then Some "subject"%string
+  else if beq h (bs "to") then Some "to"%string
+  else None.
+Definition unflag_key (f : list Z) : option string :=
+  if beq f (bs "\Answered") then Some "unanswered"%string
+  else if beq f (bs "\Deleted") then Some "undeleted"%string
+  else if beq f (bs "\Draft") then Some "undraft"%string
+  else if beq f (bs "\Flagged") then Some "unflagged"%string
+  else if beq f (bs "\Recent") then Some "old"%string
+  else if beq f (bs "\Seen") then Some "unseen"%string
+  else None.
+(* the one-token spelling of NOT k, when there is one *)
+Definition not_alt (ch : choices) (k : skey) : option (list Z) :=
+  match k with
+  | KKeyword f => match unflag_key f with
+                  | Some name => Some (kw ch 50 name)
+                  | None => if is_atom f then Some (kw ch 50 "unkeyword" ++ 32 :: f) else None
+                  end
+  | _ => None
+  end.
+Definition is_new (l : list skey) : bool :=
+  match l with
+  | [KKeyword a; KNot (KKeyword b)] => beq a (bs "\Recent") && beq b (bs "\Seen")
+  | _ => false
+  end.
+
 Fixpoint r_skey (ch : choices) (k : skey) : list Z :=
   match k with
   | KAll => kw ch 50 "all"
@@ -301,20 +333,30 @@ Fixpoint r_skey (ch : choices) (k : skey) : list Z :=
                   | Some name => kw ch 50 name
                   | None => kw ch 50 "keyword" ++ 32 :: f
                   end
-  | KHeader h s => kw ch 50 "header" ++ 32 :: r_astring (c_str ch 51 h) h ++ 32 :: r_astring (c_str ch 52 s) s
+  | KHeader h s =>
+      match (if c_opt ch 59 then hdr_key h else None) with
+      | Some name => kw ch 50 name ++ 32 :: r_astring (c_str ch 52 s) s
+      | None => kw ch 50 "header" ++ 32 :: r_astring (c_str ch 51 h) h ++ 32 :: r_astring (c_str ch 52 s) s
+      end
   | KDate w d => kw ch 50 (sdate_name w) ++ 32 :: r_date ch 53 d
   | KBody s => kw ch 50 "body" ++ 32 :: r_astring (c_str ch 52 s) s
   | KText s => kw ch 50 "text" ++ 32 :: r_astring (c_str ch 52 s) s
   | KLarger n => kw ch 50 "larger" ++ 32 :: r_number n
   | KSmaller n => kw ch 50 "smaller" ++ 32 :: r_number n
-  | KNot k' => kw ch 50 "not" ++ 32 :: r_skey ch k'
+  | KNot k' =>
+      match (if c_opt ch 59 then not_alt ch k' else None) with
+      | Some txt => txt
+      | None => kw ch 50 "not" ++ 32 :: r_skey ch k'
+      end
   | KOr a b => kw ch 50 "or" ++ 32 :: r_skey ch a ++ 32 :: r_skey ch b
-  | KAnd l => 40 :: (fix go (l : list skey) : list Z :=
-                       match l with
-                       | [] => []
-                       | [x] => r_skey ch x
-                       | x :: rest => r_skey ch x ++ 32 :: go rest
-                       end) l ++ [41]
+  | KAnd l =>
+      if c_opt ch 59 && is_new l then kw ch 50 "new"
+      else 40 :: (fix go (l : list skey) : list Z :=
+                    match l with
+                    | [] => []
+                    | [x] => r_skey ch x
+                    | x :: rest => r_skey ch x ++ 32 :: go rest
+                    end) l ++ [41]
   | KMsgSet l => r_set l
   | KUid l => kw ch 50 "uid" ++ 32 :: r_set l
   end.
@@ -416,8 +458,9 @@ Definition r_cmd (ch : choices) (c : cmd) : list Z :=
 Definition render (a : ast) (ch : choices) : list Z :=
   a_tag a ++ 32 :: r_cmd ch (a_cmd a) ++ (if c_opt ch 99 then [13; 10] else []).
 
-(* the canonical choices: lower-case keywords, atoms where possible, no optional syntax *)
-Definition canon : choices := mkChoices (fun _ _ => false) (fun _ _ => O) (fun _ => false).
+(* the canonical choices: lower-case keywords, atoms where possible, no optional syntax
+   (and the one-token spellings UNSEEN, OLD, NEW, BCC ... where they exist, which need no extra nesting) *)
+Definition canon : choices := mkChoices (fun _ _ => false) (fun _ _ => O) (fun site => Nat.eqb site 59).
 
 (* ------------------------------------------------------------------ well-formed ASTs *)
 (* The values an AST may carry so that it is the parse of its own sentences: what the parser
@@ -470,8 +513,15 @@ Definition fatt_ok (a : fetch_att) : bool :=
   end.
 
 (* d = levels of nesting the parser still accepts below this key (MAX_SEARCH_KEY_DEPTH = 32 at the top);
-   a parenthesised list of exactly one key is that key, so KAnd never has one element *)
-Fixpoint skey_ok (d : nat) (k : skey) {struct k} : bool :=
+   a parenthesised list of exactly one key is that key, so KAnd never has one element.
+   alt = the one-token spellings are used (they need no nesting): with alt = false the predicate is valid for
+   every choice of spelling, with alt = true it is what the parser produces. *)
+Definition not_alt_ok (k : skey) : bool :=
+  match k with
+  | KKeyword f => match unflag_key f with Some _ => true | None => is_atom f end
+  | _ => false
+  end.
+Fixpoint skey_ok (alt : bool) (d : nat) (k : skey) {struct k} : bool :=
   match k with
   | KAll => true
   | KKeyword f => match sysflag_key f with Some _ => true | None => is_atom f end
@@ -481,13 +531,15 @@ Fixpoint skey_ok (d : nat) (k : skey) {struct k} : bool :=
   | KText s => lowered_ok s
   | KLarger n => num_ok n
   | KSmaller n => num_ok n
-  | KNot k' => match d with O => false | S d' => skey_ok d' k' end
-  | KOr a b => match d with O => false | S d' => skey_ok d' a && skey_ok d' b end
-  | KAnd l => match l with
-              | [_] => false
-              | [] => true
-              | _ => match d with O => false | S d' => forallb (skey_ok d') l end
-              end
+  | KNot k' => if alt && not_alt_ok k' then true
+               else match d with O => false | S d' => skey_ok alt d' k' end
+  | KOr a b => match d with O => false | S d' => skey_ok alt d' a && skey_ok alt d' b end
+  | KAnd l => if alt && is_new l then true
+              else match l with
+                   | [_] => false
+                   | [] => true
+                   | _ => match d with O => false | S d' => forallb (skey_ok alt d') l end
+                   end
   | KMsgSet l => set_ok l
   | KUid l => set_ok l
   end.
@@ -502,7 +554,8 @@ Fixpoint keys_distinct {V} (l : list (list Z * V)) : bool :=
 Definition id_pair_ok (p : list Z * option (list Z)) : bool :=
   str_ok (fst p) && match snd p with None => true | Some v => str_ok v end.
 
-Definition cmd_ok (c : cmd) : bool :=
+(* alt: see skey_ok — false for every spelling of the search keys, true for the one-token spellings *)
+Definition cmd_okb (alt : bool) (c : cmd) : bool :=
   match c with
   | CNoArg _ => true
   | CExpunge => true
@@ -520,14 +573,19 @@ Definition cmd_ok (c : cmd) : bool :=
   | CAppend m flags dt msg =>
       mailbox_ok m && forallb flag_ok flags && match dt with None => true | Some t => date_time_wf t end && str_ok msg
   | CSearch _ charset keys =>
-      lowered_ok charset && match keys with [] => false | _ => forallb (skey_ok 32) keys end
+      lowered_ok charset && match keys with [] => false | _ => forallb (skey_ok alt 32) keys end
   | CFetch _ set atts => set_ok set && forallb fatt_ok atts
   | CStore _ set _ _ flags => set_ok set && forallb flag_ok flags
   | CCopy _ set m => set_ok set && mailbox_ok m
   | CMove _ set m => set_ok set && mailbox_ok m
   end.
 
-Definition wf (a : ast) : bool := tag_ok (a_tag a) && cmd_ok (a_cmd a).
+Definition cmd_ok : cmd -> bool := cmd_okb false.
+Definition wfb (alt : bool) (a : ast) : bool := tag_ok (a_tag a) && cmd_okb alt (a_cmd a).
+(* well-formed for every choice of spelling *)
+Definition wf (a : ast) : bool := wfb false a.
+(* well-formed for the canonical sentence (one-token spellings): what the parser produces *)
+Definition wf_canon (a : ast) : bool := wfb true a.
 
 (* the part of the grammar covered by the completeness theorem: all of it *)
 Definition covered (a : ast) : bool := true.
